@@ -256,6 +256,20 @@ def run : Tree → List Op → Option Tree
     | none => none
     | some (_, t') => run t' ops
 
+/-- `CopyToDirectory(src, dir)`: `mkdir -p dir`, then `cp src dir` -/
+def copyToDirectory (t : Tree) (s d : Path) (destSlash : Bool) : Option (Res × Tree) :=
+  match step t (.mkdir d) with
+  | none => none
+  | some (.err e, t1) => some (.err e, t1)
+  | some (_, t1) => step t1 (.cp s d destSlash)
+
+/-- `CopyToFile(src, file)`: `cp src file` once the source is a file and the destination a file or a missing plain name -/
+def copyToFile (t : Tree) (s d : Path) (destSlash : Bool) : Option (Res × Tree) :=
+  if !isFile t s then some (.err .invalid, t)
+  else if exists_ t d then (if !isFile t d then some (.err .invalid, t) else step t (.cp s d false))
+  else if d.isEmpty || destSlash then some (.err .invalid, t)
+  else step t (.cp s d false)
+
 /-- well-formedness: every entry has its parent directory, no entry for the root, keys unique -/
 def WF (t : Tree) : Prop :=
   (∀ e ∈ t, e.1 ≠ []) ∧ (∀ e ∈ t, isDir t (parent e.1) = true) ∧ (t.map (·.1)).Nodup
